@@ -28,12 +28,12 @@ type psQuery struct {
 }
 
 type psFact struct {
-	key  string
-	val  string // "T"/"F" for conditions, constant text for phis
-	defs map[*ssa.BasicBlock]bool
-	maps map[string]bool // canon of maps the fact depends on + "|" + key ("*" unknown)
-	x     ssa.Value      // the tested value the fact was recorded for
-	stale bool           // a map the value was looked up in has been written since: valid for x itself only
+	key   string
+	val   string // "T"/"F" for conditions, constant text for phis
+	defs  map[*ssa.BasicBlock]bool
+	maps  map[string]bool // canon of maps the fact depends on + "|" + key ("*" unknown)
+	x     ssa.Value       // the tested value the fact was recorded for
+	stale bool            // a map the value was looked up in has been written since: valid for x itself only
 }
 
 type psState struct {
